@@ -18,6 +18,7 @@ FN = {
     "d5": (["x", "z"], ["p", "i"]),
     "u1": ([], ["p", "y", "z"]),
     "u2": ([], ["p", "y"]),
+    "u3": ([], ["p", "y", "z"]),
 }
 
 
@@ -47,7 +48,7 @@ def gen(rng, tier, quarantine=()):
     mode = rng.choice(["all", "some", "some", "none"])
     if "always-instrument-all" in quarantine:
         mode = "all"
-    undefined_global = fn in ("u1", "u2")
+    undefined_global = fn in ("u1", "u2", "u3")
     if undefined_global and "no-full-instrumentation-with-undefined-global" in quarantine:
         # KF-C16-1: with every variable instrumented the undefined global is fetched
         # through interact at entry and fails there even if the path never uses it
@@ -83,7 +84,18 @@ def gen(rng, tier, quarantine=()):
     ops += recs
     for r in recs:
         ops.append({"op": "enter", "id": r["id"]})
-    for c in range(rng.randint(1, 3)):
+    for c in range(rng.randint(1, 3) + (2 if fn == "u3" else 0)):
+        if fn == "u3" and rng.random() < 0.5:
+            # the global is deleted / defined again *between* calls (cached variants were built earlier)
+            ops.append({"op": "setglobal", "name": "G1", "delete": rng.random() < 0.6, "value": 8})
+        if fn == "u3" and recs and rng.random() < 0.3:
+            # ... and probes come and go, so that variants are re-used from the cache
+            r0 = recs[-1]
+            ops.append({"op": "exit", "id": r0["id"]})
+            r1 = dict(r0, id=r0["id"] + "x")
+            ops.append(r1)
+            ops.append({"op": "enter", "id": r1["id"]})
+            recs[-1] = r1
         ops.append({"op": "call", "fn": fn, "nargs": 2 if fn == "d3" else 1,
                     "tape": gen_tape(rng, rng.randint(0, 6)),
                     "faults": gen_faults(rng, 8, rng.choice([0, 0, 0, 1]))})
